@@ -126,6 +126,15 @@ def c_totals(c):
             return Implies(flags[kind], And(Not(p_.isnone), Not(t_.isnone), t_.val == p_.val * instances))
         return post
 
+    # what a later call relies on (C27): the kinds calculated now are recorded on the component
+    KIND_OF = {"area": "area", "energy": "energy", "throughput": "throughput", "leak": "leak"}
+
+    def marked(res):
+        m = Select(ex.heap_arrays("_costs_calculated")[0], leaf.ref)
+        return And(*[Implies(flags[k], Select(m, P.elem_of_str(k))) for k in KIND_OF] + [ForAll([me_], Implies(Select(marks0, me_), Select(m, me_)))])
+
+    me_ = Const("mk", Elem)
+    c.post("requested_kinds_are_recorded_as_calculated", marked)
     c.post("total_area_counts_every_instance", total("area", "area", "total_area"))
     c.post("total_leak_power_counts_every_instance", total("leak", "leak_power", "total_leak_power"))
 
